@@ -162,7 +162,13 @@ def build(cfg, mon):
         from pjrpc.server.integration import aiohttp as ia
         d = ia.Application('/api').add_endpoint('/v2', middlewares=middlewares, error_handlers=handlers, concurrent_batch=cfg['concurrent'])
     else:
-        d = pjrpc.server.AsyncDispatcher(middlewares=middlewares, error_handlers=handlers, concurrent_batch=cfg['concurrent'])
+        kw = {}
+        if cfg.get('respcls'):
+            class OkIsTrue(pjrpc.common.Response):
+                def __bool__(self):
+                    return self.is_success          # the user's response class has a truth value of its own
+            kw['response_class'] = OkIsTrue
+        d = pjrpc.server.AsyncDispatcher(middlewares=middlewares, error_handlers=handlers, concurrent_batch=cfg['concurrent'], **kw)
     for kind in KINDS:
         if kind not in ('v1ok', 'ibroken'):
             d.add(make(kind), name=kind)
@@ -320,6 +326,8 @@ def gen_cases(ctx):
         for n in range(1, n_main + 1):
             for elems in itertools.product(alphabet, repeat=n):
                 yield dict(part='main', concurrent=conc, mw='none', eh='none', elems=elems)
+                if n <= 2:
+                    yield dict(part='main', concurrent=conc, mw='none', eh='none', elems=elems, respcls=True)
     # the same through the dispatchers the aiohttp integration builds from its keyword options
     for via in ('aiohttp-app', 'aiohttp-endpoint'):
         for conc in (True, False):
